@@ -143,7 +143,7 @@ def cases(tier, seed):
         docs = list(universe.documents(version, 2 if tier == "quick" else 3))
         if tier == "quick":
             big = [d for d in docs if len(d) > 4]
-            docs = [d for d in docs if len(d) <= 4] + rng.sample(big, min(150, len(big)))
+            docs = [d for d in docs if len(d) <= 4] + rng.sample(big, min(80, len(big)))
         else:
             big = [d for d in docs if len(d) > 5]
             docs = [d for d in docs if len(d) <= 5] + rng.sample(big, min(1500, len(big)))
